@@ -32,7 +32,7 @@ LEVEL_TEXT = ("Exploration: thousands of generated programs per run are evaluate
               "Mutated programs must fail with a BASIC error or agree with the reference; none may crash, abort or hang.")
 FLOORS = {"quick": 500, "thorough": 5000}
 SHARDS = {"quick": int(os.environ.get("C17_SHARDS", "8")), "thorough": 16}      # C17_SHARDS: development (sensitivity runs)
-BUDGET = {"quick": {"valid": 230, "large": 6, "malformed": 300}, "thorough": {"valid": 2200, "large": 60, "malformed": 2600},
+BUDGET = {"quick": {"valid": 230, "large": 6, "malformed": 300}, "thorough": {"valid": 1600, "large": 50, "malformed": 2000},
           "replay": {"valid": 1, "large": 1, "malformed": 1}}
 ASAN_EVERY = {"quick": 3, "thorough": 2, "replay": 1}
 TIMEOUT_S = 60.0
@@ -579,6 +579,8 @@ def check_valid(case, ctx):
     flat2 = [v for g in r2.outputs for v in g]
     same = r2.status == "ok" and len(flat2) == len(flat) and all(
         (isinstance(a, br.Num) and isinstance(b, br.Num) and a.v == b.v) or (not isinstance(a, br.Num) and a == b) for a, b in zip(flat, flat2))
+    # ... and the store must have reached its fixed point after the first evaluation (then every later one repeats the second)
+    same = same and set(r.store) == set(r2.store) and all(r.store[k].v == r2.store[k].v for k in r.store)
     if same:
         slots = []
         for k, x in enumerate(nv, 1):
